@@ -1,3 +1,4 @@
+import ntpath
 from collections import defaultdict
 
 from . import builtin
@@ -11,7 +12,7 @@ from ..build_inputs import build_input, Edge
 from ..file_types import *
 from ..iterutils import first, flatten, iterate, unlistify
 from ..objutils import convert_each, convert_one
-from ..path import Path
+from ..path import Path, Root
 from ..shell import posix as pshell
 
 build_input('compile_options')(lambda: defaultdict(list))
@@ -25,6 +26,13 @@ class BaseCompile(Edge):
         build = context.build
         if name is None:
             name = self.compiler.default_name(self.file, self)
+            if self.file.path.root == Root.absolute:
+                # The output of a file from outside the source and build
+                # directories still belongs in the build directory: name it by
+                # the file's path without the leading drive and separator.
+                drive, rest = ntpath.splitdrive(name)
+                name = (drive.replace(':', '').strip('/\\') + '/' +
+                        rest.lstrip('/\\')).lstrip('/')
             if directory:
                 name = within_directory(Path(name), directory).suffix
         else:
